@@ -13,9 +13,15 @@ Definition tOptNat (t : tree) : option nat := tOpt tNat t.
 Definition tOvf (t : tree) : ovf :=
   let z := tZ t in if z =? 0 then OCrop else if z =? 1 then OEllipsis else OVisible.
 
-(* [progress, transient, ovf, W, H, frender?, fbuild?]  (T3 facts: today's /repo) *)
+(* [progress, transient, ovf, W, H, frender?, fbuild?, kind]  (T3 facts: today's /repo).
+   kind 2 = Status: transient and overflow mode are what rich/status.py passes to Live, not what the
+   harness says *)
 Definition tCfg (t : tree) : cfg :=
-  cfg_today (tB (tNth t 0)) (tB (tNth t 1)) (tOvf (tNth t 2)) (tZ (tNth t 3)) (tZ (tNth t 4))
+  let status := tZ (tNth t 7) =? 2 in
+  cfg_today (tB (tNth t 0))
+            (if status then status_live_transient else tB (tNth t 1))
+            (if status then tOvf (I status_overflow_mode) else tOvf (tNth t 2))
+            (tZ (tNth t 3)) (tZ (tNth t 4))
             (tOptNat (tNth t 5)) (tOptNat (tNth t 6)).
 
 Definition tOp (t : tree) : op :=
@@ -43,7 +49,14 @@ Fixpoint run_trace (c : cfg) (s : st) (ops : list op) : st * bool * list (nat * 
 Definition run_case (t : tree) : cfg * (st * bool * list (nat * nat)) :=
   let c := tCfg (tNth t 0) in
   let f0 := tLines (tNth t 1) in
-  let ops := tList tOp (tNth t 4) in
+  let status := tZ (tNth (tNth t 0) 7) =? 2 in
+  (* Status.update always ends with _live.update(..., refresh=True) *)
+  let fix_op (o : op) : op :=
+    match o with
+    | Update f r => Update f (r || (status && status_update_refreshes))
+    | _ => o
+    end in
+  let ops := map fix_op (tList tOp (tNth t 4)) in
   if tZ (tNth t 2) =? 0 then (c, run_trace c (st0 c f0) ops)
   else let '(s, r) := run_block c f0 (tList tLines (tNth t 3)) ops in (c, (s, r, [])).
 
@@ -72,7 +85,8 @@ Definition ops : list (string * (tree -> tree)) := [
       L [ofStr (position_cursor sh); ofStr (restore_cursor sh)]);
   ("facts", fun _ => L [ofB progress_start_guarded; ofB live_stop_visible_unless_transient;
                         ofB live_stop_restores_overflow; ofB live_stop_resets_shape;
-                        ofB progress_stop_resets_shape; ofB live_transient_final_room]);
+                        ofB progress_stop_resets_shape; ofB live_transient_final_room;
+                        ofB live_render_crops_to_page]);
   (* ---- spec-level checkers on the given bytes (the harness passes the implementation's) ---- *)
   ("spec.view_ok", fun t =>   (* [case, bytes]: expectation from the history, screen from the bytes *)
       let '(c, (s, _, _)) := run_case (tNth t 0) in
